@@ -91,3 +91,24 @@ MANIFEST_TEXT["C17"] = dict(
     text="Every generated graph is solved by the three library algorithms and by an independent Bellman-Ford; all n^2 entries (and the unreachable sentinel, symmetry, diagonal) are compared. Held on the executions observed; exploration by generator diversity (parallel edges, self-loops, zero weights, disconnected, empty-weights convention).",
     note="Trusts the harness' Bellman-Ford (self-checked against union-find components on every case).",
 )
+
+CHECKS["C09"] = dict(
+    level="exploration",
+    rule=("cases = rectangle sets (generators continuous/integer-grid/identical-copies/thin/nested/chain/dense-large/mixed, n 2..400) x fixed subset "
+          "(none/singleton/several) x thirdPass x preset x/y borders x both overloads for removeoverlaps; and, for the constraint generators, sets n<=70 "
+          "checked by longest paths in the generated constraint DAG. non-trivial = at least one pair overlaps initially"),
+    workloads=[
+        dict(harness="c09_overlaps", mode="sets", quick=12000, thorough=600000, watchdog=120, san_thorough=15000),
+        dict(harness="c09_overlaps", mode="gen", quick=12000, thorough=400000, watchdog=60, san_thorough=10000),
+    ],
+    min_nontrivial=dict(quick=3000, thorough=30000),
+    max_inconclusive=0.01,
+    require_obs=["initially_overlapping_pairs", "fixed_rectangles_checked", "pairs_needing_separation"],
+    assumptions=["overlap tolerance 1e-6 (as stated); size tolerance 1e-9 relative to coordinate magnitude",
+                 "the weight-bound form of the fixed clause (10000*|d_f| <= sum |d_i|) is judged for a single fixed rectangle only: with several fixed rectangles in one block it is not implied"],
+)
+MANIFEST_TEXT["C09"] = dict(
+    technique="runtime monitor: pairwise interval-arithmetic oracle on outputs of removeoverlaps; longest-path analysis of the generated constraint DAG (covers all satisfying placements)",
+    text="Each generated rectangle set is pushed through removeoverlaps (both overloads, fixed subsets, third pass, preset borders) and judged from the public getters; the constraint generators are judged by longest paths in their output DAG, which decides the 'any satisfying placement' clause for that input exactly. Held on the executions observed; F5 (fixed = weight 10000) is a recorded finding matched by signature.",
+    note="Trusts the harness' interval arithmetic and DAG longest-path code; ties in the other axis (touching rectangles, overlap <= 1e-9) are not required to be separated.",
+)
